@@ -32,6 +32,68 @@ def field_of_receiver(b, op):
 def run(R):
     _run(R)
     r7(R)
+    r8(R)
+
+
+def r8(R):
+    """rows are compared by ISTREAM / DSTREAM as Vec<(var, value)>: the order of the pairs is part of a row's identity"""
+    prog = R.prog
+    R.rule("C10-R8", "a row has one canonical form: wherever the RSP layer turns a solution map into the Vec<(variable, value)> that ISTREAM / DSTREAM "
+                     "compare across firings, the pairs are sorted by a key that is unique within a row - the variable name (or the whole pair). "
+                     "Sorting by the value alone ties when two variables are bound to the same term; the tie is broken by the hash map's "
+                     "iteration order, so the same row looks new (ISTREAM) or vanished (DSTREAM) at the next firing")
+    sites = 0
+    for k, b in sorted(prog.bodies.items()):
+        if b.crate != "kolibrie" or "::tests::" in k or not (b.file.endswith("rsp_engine.rs") or "/rsp/" in b.file):
+            continue
+        for c in b.calls():
+            if c.name() not in ("sort_by", "sort_unstable_by", "sort_by_key", "sort_unstable_by_key", "sort_by_cached_key", "sort", "sort_unstable"):
+                continue
+            p0 = F.op_place(c.args[0]) if c.args else None
+            if p0 is None or "(alloc::string::String, alloc::string::String)" not in b.local_ty(p0["l"]):
+                continue
+            sites += 1
+            if c.name() in ("sort", "sort_unstable"):
+                R.ob("C10-R8", "row-order:%s" % _rootname(prog, b), "%s sorts a row by a key that is unique within the row (whole pairs)" % _rootname(prog, b), True, where=b.where(c.ln))
+                continue
+            from c19 import closure_family_calls
+            key, inner = closure_family_calls(prog, b, c.args[1])
+            cl = prog.bodies.get(key) if key else None
+            fields = set()
+            if cl is not None:
+                for x in prog.family(cl.key):
+                    for cc in x.calls():
+                        if cc.name() not in ("cmp", "partial_cmp", "clone", "as_str", "deref", "to_string", "to_owned"):
+                            continue
+                        for a in cc.args:
+                            pl = F.op_place(a)
+                            if pl is None:
+                                continue
+                            cur, seen = [pl], set()
+                            while cur:
+                                q = cur.pop()
+                                if (q["l"], len(q["p"])) in seen:
+                                    continue
+                                seen.add((q["l"], len(q["p"])))
+                                fs = [e.get("i", e.get("n")) for e in q["p"] if e["k"] == "field"]
+                                if fs and q["l"] <= x.nargs + 1:
+                                    fields.add(str(fs[-1]))
+                                for d in x.defs().get(q["l"], []):
+                                    if d[0] == "assign":
+                                        for q2, kk in F.rv_places(d[3]):
+                                            if [e for e in q2["p"] if e["k"] == "field"]:
+                                                fs2 = [e.get("i", e.get("n")) for e in q2["p"] if e["k"] == "field"]
+                                                fields.add(str(fs2[-1]))
+                                            cur.append(q2)
+            ok = ("0" in fields) or (cl is not None and not fields)
+            R.ob("C10-R8", "row-order:%s" % _rootname(prog, b), "%s sorts a row by a key that is unique within the row (compared components: %s)"
+                 % (_rootname(prog, b), sorted(fields) or "whole pair"), ok, where=b.where(c.ln),
+                 detail=None if ok else "the comparator looks at the value only: two variables bound to the same term tie and keep their hash-map order")
+    R.floor("C10-R8", "places where the RSP layer sorts a row's (variable, value) pairs", sites, 1)
+
+
+def _rootname(prog, b):
+    return prog.bodies[b.root].name if b.is_closure and b.root in prog.bodies else b.name
 
 
 def _run(R):
